@@ -62,14 +62,68 @@ Ltac split_and :=
          | H : negb _ = true |- _ => apply negb_true_iff in H
          end.
 
+(* after the client's context has ended: whatever the handler still does, the client's final
+   Header() / Trailer() show what a real connection shows, unless the handler sets a trailer or
+   sends headers it had not sent before (recorded classes 1 and 4) *)
+Definition pinv (s : wst) (g : gst) : Prop :=
+  w_closed s = false /\ w_cancelled s = true /\ g_over g = true /\ w_sent s = g_sent g /\
+  (g_sent g = true -> w_header s = g_chdr g) /\ w_trailer s = [].
+
+Lemma post_equal : forall sh l s g half,
+  pinv s g -> w_half s = half ->
+  wf_post sh half l = true -> post_sets_trailer l = false -> k4_post (g_sent g) l = false ->
+  w_obs fx_now sh (mkWR s false false) l = g_steps sh g l.
+Proof.
+  intros sh l. induction l as [|st rest IH]; intros s g half Hinv Hhalf Hwf Hpt Hk4.
+  - discriminate.
+  - destruct s as [wh ws wt wc we wx whf], g as [gh gs gt gc ghf gr go].
+    unfold pinv in Hinv. cbn in Hinv. destruct Hinv as (? & Hx & ? & ? & Hh & ?). cbn in Hhalf. subst.
+    assert (Hgone : forall h s' t, w_gone (mkW h s' t false we wx half) = true).
+    { intros. unfold w_gone, w_cancelled. cbn. destruct wx; [discriminate | reflexivity | reflexivity]. }
+    rewrite w_obs_cons, g_steps_cons.
+    destruct st; try discriminate.
+    + (* S2C: SendMsg on the finished call *)
+      cbn in Hwf. split_and. cbn in Hpt, Hk4.
+      cbn [w_step wr_over wr_s]. rewrite Hgone. cbn.
+      erewrite IH; [reflexivity | | reflexivity | eassumption | exact Hpt | exact Hk4].
+      unfold pinv; cbn; repeat split; auto.
+    + (* SetH *)
+      cbn in Hwf. cbn in Hpt, Hk4.
+      cbn [w_step wr_over wr_s]. rewrite Hgone.
+      destruct (md_empty h) eqn:Hh0; [|destruct gs]; cbn; rewrite ?Hh0; cbn;
+        (erewrite IH; [reflexivity | | reflexivity | exact Hwf | exact Hpt | exact Hk4]);
+        unfold pinv; cbn; repeat split; auto; discriminate.
+    + (* SendH: only with headers sent before *)
+      cbn in Hwf. cbn in Hpt, Hk4. apply orb_false_iff in Hk4. destruct Hk4 as [Hs Hk4].
+      apply negb_false_iff in Hs. subst gs.
+      cbn [w_step wr_over wr_s]. rewrite Hgone. cbn.
+      erewrite IH; [reflexivity | | reflexivity | exact Hwf | exact Hpt | exact Hk4].
+      unfold pinv; cbn; repeat split; auto.
+    + (* SetT: only empty metadata *)
+      cbn in Hwf. cbn in Hpt, Hk4. apply orb_false_iff in Hpt. destruct Hpt as [Ht Hpt].
+      apply negb_false_iff in Ht. destruct t; [|discriminate].
+      cbn. erewrite IH; [reflexivity | | reflexivity | exact Hwf | exact Hpt | exact Hk4].
+      unfold pinv; cbn; repeat split; auto.
+    + (* RecvEOF: a RecvMsg that fails *)
+      cbn in Hwf. split_and. subst. cbn in Hpt, Hk4.
+      cbn [w_step wr_over wr_s]. rewrite Hgone. cbn.
+      erewrite IH; [reflexivity | | reflexivity | eassumption | exact Hpt | exact Hk4].
+      unfold pinv; cbn; repeat split; auto.
+    + (* Ret *)
+      cbn in Hwf. split_and. destruct rest; try discriminate.
+      cbn [w_step wr_over wr_s]. rewrite Hgone.
+      destruct gs; [rewrite (Hh eq_refl)|]; destruct wx; try discriminate; destruct sh, r; cbn; reflexivity.
+Qed.
+
 Lemma steps_equal : forall sh l s g half sent infl,
   inv s g half sent ->
   wf_steps sh half sent infl l = true ->
   k1_steps (negb (md_empty (g_trl g))) l = false ->
   k2_steps sh l = false ->
+  k4_steps sent l = false ->
   w_obs fx_now sh (mkWR s false false) l = g_steps sh g l.
 Proof.
-  intros sh l. induction l as [|st rest IH]; intros s g half sent infl Hinv Hwf Hk1 Hk2.
+  intros sh l. induction l as [|st rest IH]; intros s g half sent infl Hinv Hwf Hk1 Hk2 Hk4.
   - discriminate.
   - destruct s as [wh ws wt wc we wx whf], g as [gh gs gt gc ghf gr go].
     unfold inv in Hinv. cbn in Hinv.
@@ -77,49 +131,58 @@ Proof.
     rewrite w_obs_cons, g_steps_cons.
     destruct st.
     + (* C2S *)
-      cbn in Hwf. split_and. subst. cbn in Hk1, Hk2.
-      cbn. erewrite IH; [reflexivity | | eassumption | exact Hk1 | exact Hk2].
+      cbn in Hwf. split_and. subst. cbn in Hk1, Hk2, Hk4.
+      cbn. erewrite IH; [reflexivity | | eassumption | exact Hk1 | exact Hk2 | exact Hk4].
       unfold inv; cbn; repeat split; auto.
     + (* S2C *)
-      cbn in Hwf. cbn in Hk2. cbn in Hk1.
+      cbn in Hwf. cbn in Hk2. cbn in Hk1. cbn in Hk4.
       destruct (ss sh) eqn:Hss.
       * cbn. rewrite Hss. destruct sent; cbn;
-          (erewrite IH; [reflexivity | | exact Hwf | exact Hk1 | exact Hk2]);
+          (erewrite IH; [reflexivity | | exact Hwf | exact Hk1 | exact Hk2 | exact Hk4]);
           unfold inv; cbn; repeat split; auto.
-      * split_and. destruct rest as [|[| | | | | | | |rt|] [|? ?]]; try discriminate.
+      * split_and. destruct rest as [|[| | | | | | | |rt| |] [|? ?]]; try discriminate.
         destruct rt; try discriminate.
         rewrite w_obs_cons, g_steps_cons.
         destruct sh; try discriminate; destruct sent; cbn; reflexivity.
     + (* SetH *)
-      cbn in Hwf. cbn in Hk1, Hk2.
+      cbn in Hwf. cbn in Hk1, Hk2, Hk4.
       cbn. destruct (md_empty h) eqn:Hh0; [|destruct sent]; cbn;
-        (erewrite IH; [reflexivity | | exact Hwf | exact Hk1 | exact Hk2]);
+        (erewrite IH; [reflexivity | | exact Hwf | exact Hk1 | exact Hk2 | exact Hk4]);
         unfold inv; cbn; repeat split; auto.
     + (* SendH *)
-      cbn in Hwf. cbn in Hk1, Hk2.
+      cbn in Hwf. cbn in Hk1, Hk2, Hk4.
       cbn. destruct sent; cbn;
-        (erewrite IH; [reflexivity | | exact Hwf | exact Hk1 | exact Hk2]);
+        (erewrite IH; [reflexivity | | exact Hwf | exact Hk1 | exact Hk2 | exact Hk4]);
         unfold inv; cbn; repeat split; auto.
     + (* SetT *)
-      cbn in Hwf. cbn in Hk1, Hk2.
-      cbn. erewrite IH; [reflexivity | | exact Hwf | | exact Hk2].
+      cbn in Hwf. cbn in Hk1, Hk2, Hk4.
+      cbn. erewrite IH; [reflexivity | | exact Hwf | | exact Hk2 | exact Hk4].
       * unfold inv; cbn; repeat split; auto.
       * cbn. rewrite md_empty_app, negb_andb. exact Hk1.
     + (* CloseSend *)
-      cbn in Hwf. split_and. subst. cbn in Hk1, Hk2.
-      cbn. erewrite IH; [reflexivity | | eassumption | exact Hk1 | exact Hk2].
+      cbn in Hwf. split_and. subst. cbn in Hk1, Hk2, Hk4.
+      cbn. erewrite IH; [reflexivity | | eassumption | exact Hk1 | exact Hk2 | exact Hk4].
       unfold inv; cbn; repeat split; auto.
     + (* RecvEOF *)
-      cbn in Hwf. split_and. subst. cbn in Hk1, Hk2.
-      cbn. erewrite IH; [reflexivity | | eassumption | exact Hk1 | exact Hk2].
+      cbn in Hwf. split_and. subst. cbn in Hk1, Hk2, Hk4.
+      cbn. erewrite IH; [reflexivity | | eassumption | exact Hk1 | exact Hk2 | exact Hk4].
       unfold inv; cbn; repeat split; auto.
     + (* CHeader *)
-      cbn in Hwf. split_and. subst. cbn in Hk1, Hk2.
-      cbn. erewrite IH; [reflexivity | | eassumption | exact Hk1 | exact Hk2].
+      cbn in Hwf. split_and. subst. cbn in Hk1, Hk2, Hk4.
+      cbn. erewrite IH; [reflexivity | | eassumption | exact Hk1 | exact Hk2 | exact Hk4].
       unfold inv; cbn; repeat split; auto.
     + (* Ret *)
       cbn in Hwf. split_and. destruct rest; try discriminate.
       destruct sh, r, sent; cbn; reflexivity.
+    + (* CtxEnd *)
+      cbn in Hwf. split_and. cbn in Hk1, Hk4.
+      apply orb_false_iff in Hk1. destruct Hk1 as [Hk1 Hpt].
+      destruct gt; try discriminate.
+      assert (Hpost : w_obs fx_now sh (mkWR (set_ctx (ctx_of dl) (mkW (if sent then gc else gh) sent [] false we CtxLive half)) false false) rest
+                      = g_steps sh (mkG gh sent [] gc half None true) rest).
+      { eapply post_equal; [ | reflexivity | eassumption | exact Hpt | exact Hk4].
+        unfold pinv. destruct dl, sent; cbn; repeat split; auto; discriminate. }
+      destruct dl, sh, sent; cbn in *; rewrite Hpost; reflexivity.
     + (* Cancel *)
       cbn in Hwf. split_and. destruct rest; try discriminate.
       cbn in Hk1. destruct gt; try discriminate.
@@ -127,11 +190,12 @@ Proof.
 Qed.
 
 Lemma known_none : forall sc, precancel sc = false -> no_known sc = true ->
-  k1_steps false (steps sc) = false /\ k2_steps (shp sc) (steps sc) = false.
+  k1_steps false (steps sc) = false /\ k2_steps (shp sc) (steps sc) = false /\ k4_steps false (steps sc) = false.
 Proof.
   intros sc Hp H. unfold no_known, known_class in H. rewrite Hp in H.
   destruct (k1_steps false (steps sc)); [discriminate|].
-  destruct (k2_steps (shp sc) (steps sc)); [discriminate|]. auto.
+  destruct (k2_steps (shp sc) (steps sc)); [discriminate|].
+  destruct (k4_steps false (steps sc)); [discriminate|]. auto.
 Qed.
 
 Theorem wrapper_equals_grpc : forall sc,
@@ -139,10 +203,10 @@ Theorem wrapper_equals_grpc : forall sc,
 Proof.
   intros [sh rq om pc l] Hwf Hnk. unfold wrap_run, wrap_exec, grpc_run, wf, precancel in *. cbn [pre shp steps req omd] in *.
   destruct pc; [ | destruct l; [destruct sh; reflexivity | discriminate] .. ].
-  - destruct (known_none (mkScn sh rq om CtxLive l) eq_refl Hnk) as [Hk1 Hk2]. cbn [steps shp] in Hk1, Hk2.
+  - destruct (known_none (mkScn sh rq om CtxLive l) eq_refl Hnk) as [Hk1 [Hk2 Hk4]]. cbn [steps shp] in Hk1, Hk2, Hk4.
     assert (Hs : forall s0, inv s0 (g_init (negb (cs sh))) (negb (cs sh)) false ->
                  snd (w_steps fx_now sh (mkWR s0 false false) l) = g_steps sh (g_init (negb (cs sh))) l).
-    { intros s0 Hi. apply (steps_equal sh l s0 _ _ _ _ Hi Hwf); [exact Hk1 | exact Hk2]. }
+    { intros s0 Hi. apply (steps_equal sh l s0 _ _ _ _ Hi Hwf); [exact Hk1 | exact Hk2 | exact Hk4]. }
     destruct sh; cbn [w_start cs is_invoke negb];
       match goal with |- context [w_steps fx_now ?sh (mkWR ?s0 false false) l] =>
         specialize (Hs s0); destruct (w_steps fx_now sh (mkWR s0 false false) l) as [r [c sv]] end;
@@ -166,6 +230,35 @@ Proof.
   destruct (w_steps fx sh r1 rest) as [r2 [c2 sv2]]. reflexivity.
 Qed.
 
+Lemma post_finish : forall sh l s half,
+  w_closed s = false -> w_cancelled s = true -> w_half s = half ->
+  wf_post sh half l = true ->
+  w_closed (wr_s (w_fin fx_now sh (mkWR s false false) l)) = true /\
+  forallb not_stuck (fst (w_obs fx_now sh (mkWR s false false) l)) = true.
+Proof.
+  intros sh l. induction l as [|st rest IH]; intros s half Hc Hx Hhalf Hwf.
+  - discriminate.
+  - destruct s as [wh ws wt wc we wx whf]. cbn in Hc, Hhalf. subst.
+    assert (Hx' : forall h s' t, w_cancelled (mkW h s' t false we wx half) = true) by (intros; exact Hx).
+    assert (Hgone : forall h s' t, w_gone (mkW h s' t false we wx half) = true).
+    { intros. unfold w_gone. rewrite Hx'. reflexivity. }
+    rewrite w_fin_cons, w_obs_cons. cbn [fst]. rewrite forallb_app.
+    destruct st; try discriminate.
+    + cbn in Hwf. split_and. cbn [w_step wr_over wr_s]. rewrite Hgone. cbn.
+      eapply IH; [reflexivity | apply Hx' | reflexivity | eassumption].
+    + cbn in Hwf. cbn [w_step wr_over wr_s]. rewrite Hgone.
+      destruct (md_empty h) eqn:Hh0; [|destruct ws]; cbn; rewrite ?Hh0; cbn;
+        (eapply IH; [reflexivity | apply Hx' | reflexivity | exact Hwf]).
+    + cbn in Hwf. cbn [w_step wr_over wr_s]. rewrite Hgone.
+      destruct ws; cbn; (eapply IH; [reflexivity | apply Hx' | reflexivity | exact Hwf]).
+    + cbn in Hwf. cbn. eapply IH; [reflexivity | apply Hx' | reflexivity | exact Hwf].
+    + cbn in Hwf. split_and. subst. cbn [w_step wr_over wr_s]. rewrite Hgone. cbn.
+      eapply IH; [reflexivity | apply Hx' | reflexivity | eassumption].
+    + cbn in Hwf. split_and. destruct rest; try discriminate.
+      cbn [w_step wr_over wr_s]. rewrite Hgone.
+      destruct sh, r, ws; cbn; auto.
+Qed.
+
 Lemma steps_finish : forall sh l s half sent infl,
   winv s half sent ->
   wf_steps sh half sent infl l = true ->
@@ -182,7 +275,7 @@ Proof.
       eapply IH; [|eassumption]. unfold winv; cbn; repeat split; auto.
     + cbn in Hwf. destruct (ss sh) eqn:Hss.
       * cbn. rewrite Hss. destruct sent; cbn; (eapply IH; [|exact Hwf]); unfold winv; cbn; repeat split; auto.
-      * split_and. destruct rest as [|[| | | | | | | |rt|] [|? ?]]; try discriminate.
+      * split_and. destruct rest as [|[| | | | | | | |rt| |] [|? ?]]; try discriminate.
         rewrite w_fin_cons, w_obs_cons.
         destruct sh; try discriminate; destruct sent, rt; cbn; auto;
           repeat match goal with |- context [if ?b then _ else _] => destruct b end; auto.
@@ -196,6 +289,12 @@ Proof.
     + cbn in Hwf. split_and. destruct rest; try discriminate.
       destruct sh, r, sent; cbn; auto;
         repeat match goal with |- context [if ?b then _ else _] => destruct b end; auto.
+    + (* CtxEnd *)
+      cbn in Hwf. split_and.
+      assert (Hp := post_finish sh rest (set_ctx (ctx_of dl) (mkW wh sent wt false we CtxLive half)) half
+                      eq_refl (ltac:(destruct dl; reflexivity)) eq_refl ltac:(eassumption)).
+      destruct Hp as [Hp1 Hp2].
+      destruct dl, sh; cbn in *; rewrite ?Hp1, ?Hp2; auto.
     + cbn in Hwf. split_and. destruct rest; try discriminate.
       destruct dl, sh, sent, half; cbn; auto.
 Qed.
